@@ -34,6 +34,9 @@ def r1(ctx, fs):
             if nm in ACCEPTED_SIBLING_DIFFS:
                 ctx.note('R1 accepted difference in %s: %s' % (nm, ACCEPTED_SIBLING_DIFFS[nm]))
                 continue
+            flags = dual.snapshot_flags(fa) + dual.snapshot_flags(fb)
+            if flags:
+                raise AnalysisBroken('%s / %s: the sibling comparison does not decide code that branches on a recorded flag (%s) whose test was made before the state it reads was changed' % (fa.id, fb.id, ', '.join(flags)))
             pa, pb = dual.first_difference(oa, ob)
             ca, ea, cb, eb = dual.eff_diff(pa, pb) if pa and pb else ((), (), (), ())
             ctx.finding(rid, fa.id, 'sibling', 'idl_theory::%s and rdl_theory::%s disagree (one of them is wrong): IDL only: %s %s ; RDL only: %s %s' % (
